@@ -2,7 +2,11 @@ use std::{collections::BTreeMap, fmt};
 
 use as_variant::as_variant;
 use js_int::{Int, UInt};
-use serde::{de::Deserializer, ser::Serializer, Deserialize, Serialize};
+use serde::{
+    de::{self, Deserializer, MapAccess, SeqAccess, Visitor},
+    ser::Serializer,
+    Deserialize, Serialize,
+};
 use serde_json::{to_string as to_json_string, Value as JsonValue};
 
 use super::CanonicalJsonError;
@@ -283,8 +287,80 @@ impl<'de> Deserialize<'de> for CanonicalJsonValue {
     where
         D: Deserializer<'de>,
     {
-        let val = JsonValue::deserialize(deserializer)?;
-        val.try_into().map_err(serde::de::Error::custom)
+        // The value is not deserialized via `serde_json::Value`: with the `raw_value` feature of
+        // serde_json, that type replaces an object whose first key is the marker of
+        // `serde_json::value::RawValue` with the JSON that the string next to it contains.
+        struct CanonicalJsonValueVisitor;
+
+        impl<'de> Visitor<'de> for CanonicalJsonValueVisitor {
+            type Value = CanonicalJsonValue;
+
+            fn expecting(&self, formatter: &mut fmt::Formatter<'_>) -> fmt::Result {
+                formatter.write_str("a canonical JSON value")
+            }
+
+            fn visit_bool<E: de::Error>(self, v: bool) -> Result<Self::Value, E> {
+                Ok(CanonicalJsonValue::Bool(v))
+            }
+
+            fn visit_i64<E: de::Error>(self, v: i64) -> Result<Self::Value, E> {
+                Int::try_from(v)
+                    .map(CanonicalJsonValue::Integer)
+                    .map_err(|_| E::custom(CanonicalJsonError::IntConvert))
+            }
+
+            fn visit_u64<E: de::Error>(self, v: u64) -> Result<Self::Value, E> {
+                Int::try_from(v)
+                    .map(CanonicalJsonValue::Integer)
+                    .map_err(|_| E::custom(CanonicalJsonError::IntConvert))
+            }
+
+            fn visit_f64<E: de::Error>(self, _v: f64) -> Result<Self::Value, E> {
+                Err(E::custom(CanonicalJsonError::IntConvert))
+            }
+
+            fn visit_str<E: de::Error>(self, v: &str) -> Result<Self::Value, E> {
+                Ok(CanonicalJsonValue::String(v.to_owned()))
+            }
+
+            fn visit_string<E: de::Error>(self, v: String) -> Result<Self::Value, E> {
+                Ok(CanonicalJsonValue::String(v))
+            }
+
+            fn visit_none<E: de::Error>(self) -> Result<Self::Value, E> {
+                Ok(CanonicalJsonValue::Null)
+            }
+
+            fn visit_some<D: Deserializer<'de>>(self, d: D) -> Result<Self::Value, D::Error> {
+                Deserialize::deserialize(d)
+            }
+
+            fn visit_unit<E: de::Error>(self) -> Result<Self::Value, E> {
+                Ok(CanonicalJsonValue::Null)
+            }
+
+            fn visit_seq<A: SeqAccess<'de>>(self, mut seq: A) -> Result<Self::Value, A::Error> {
+                let mut vec = Vec::new();
+
+                while let Some(value) = seq.next_element()? {
+                    vec.push(value);
+                }
+
+                Ok(CanonicalJsonValue::Array(vec))
+            }
+
+            fn visit_map<A: MapAccess<'de>>(self, mut map: A) -> Result<Self::Value, A::Error> {
+                let mut object = CanonicalJsonObject::new();
+
+                while let Some((key, value)) = map.next_entry::<String, CanonicalJsonValue>()? {
+                    object.insert(key, value);
+                }
+
+                Ok(CanonicalJsonValue::Object(object))
+            }
+        }
+
+        deserializer.deserialize_any(CanonicalJsonValueVisitor)
     }
 }
 
